@@ -5,6 +5,7 @@
 From Coq Require Import List NArith Bool.
 Import ListNotations.
 From RV Require Import Lib.Str Lib.Regex Gen.GenRegex Model.Adapters Proofs.AdaptersP.
+From RV Require Import Gen.GenRegex Gen.GenAdapters Proofs.AdapterErrP.
 
 (** For any output whatsoever each built-in adapter either rejects (OutputNotParseable /
     ResultsIndicatedAsInvalid) or returns a NON-EMPTY list of data points in which every data point
@@ -58,3 +59,21 @@ Example C12_example :
   /\ rbl_parse palette false (out ++ [69;114;114;111;114]%N) = PReject true
   /\ (exists d, rbl_parse palette true (out ++ [69;114;114;111;114]%N) = POk [d]).
 Proof. vm_compute. repeat split; eexists; split; reflexivity || reflexivity. Qed.
+
+(** The common code of the adapters is the code's: GaugeAdapter.check_for_error is translated from adapter.py on every run, with
+    the list each documented adapter stores in _other_error_definitions; the parse functions of the model are loops that call
+    the translated check with the translated lists.  Read off every parse_data as well: it iterates over data.split("\n"), the
+    error check is the first thing done with a line (JMH: after its end-of-run test), a hit raises ResultsIndicatedAsInvalid,
+    and the method ends by rejecting when no data point was found. *)
+Theorem C12_error_check_is_the_code :
+  (forall U f others l, gen_check_for_error U f others l = common_err U f others l)
+  /\ (forall U f data,
+        rbl_parse U f data = loop (gen_check_for_error U f rbl_error_definitions) (fun _ => false) (rbl_classify U) (split_nl data) [] []
+        /\ psl_parse U f data = loop (gen_check_for_error U f psl_error_definitions) (fun _ => false) (psl_classify U) (split_nl data) [] []
+        /\ val_parse U f data = loop (gen_check_for_error U f val_error_definitions) (fun _ => false) (val_classify U) (split_nl data) [] []
+        /\ jmh_parse U f data = loop (gen_check_for_error U f jmh_error_definitions) (re_search U jmh_re_complete) (jmh_classify U) (split_nl data) [] []
+        /\ timf_parse U f data = loop (gen_check_for_error U f tim_error_definitions) (fun _ => false) (timf_classify U) (split_nl data) [] []
+        /\ sav_parse U f data = loop (gen_check_for_error U f sav_error_definitions) (fun _ => false) (sav_classify U) (split_nl data) [] [])
+  /\ adapter_loops_as_modelled = true.
+Proof. split; [exact check_for_error_is_common_err|]. split; [exact parse_functions_call_the_translated_check | reflexivity]. Qed.
+Print Assumptions C12_error_check_is_the_code.
